@@ -72,8 +72,8 @@ def from_era5(dset, freqs=None, dirs=None):
     dset = 10**dset * np.pi / 180
     dset = dset.fillna(0)
 
-    dset[attrs.FREQNAME] = freqs if freqs else DEFAULT_FREQS
-    dset[attrs.DIRNAME] = dirs if dirs else DEFAULT_DIRS
+    dset[attrs.FREQNAME] = freqs if freqs is not None else DEFAULT_FREQS
+    dset[attrs.DIRNAME] = dirs if dirs is not None else DEFAULT_DIRS
 
     # Setting standard attributes
     set_spec_attributes(dset)
